@@ -252,11 +252,15 @@ func (c *rapidContext) watchEvents(events <-chan supvmodel.Event) {
 			log.Warnf("Process %s exited: %+v", *termination.Name, termination)
 		}
 
+		// Cancel flows before the exit is published to a shutdown in progress:
+		// once the last exit is published the shutdown may complete and the
+		// state (including flow cancellation) is cleared for the next generation.
+		c.registrationService.CancelFlows(err)
+
 		// At the moment we only get termination events.
 		// When their are other event types then we would need to be selective,
 		// about what we send to handleShutdownEvent().
 		c.shutdownContext.handleProcessExit(*termination)
-		c.registrationService.CancelFlows(err)
 	}
 }
 
